@@ -217,9 +217,18 @@ func guardedByS(fn *ssa.Function, at *ssa.BasicBlock, subj ssa.Value, mk Subject
 					continue
 				}
 				inClass := true // unknown results count for every class
-				if bv, isb := constBool(r.Results[0]); isb {
+				res := r.Results[0]
+				if pm, isP := stripConv(res).(*ssa.Parameter); isP {
+					// the helper hands back one of its arguments: classify by what is passed at this call
+					for i, q := range h.Params {
+						if q == pm && i < len(call.Call.Args) {
+							res = call.Call.Args[i]
+						}
+					}
+				}
+				if bv, isb := constBool(res); isb {
 					inClass = (c.class == 1 && bv) || (c.class == 0 && !bv)
-				} else if k, isk := constInt(r.Results[0]); isk {
+				} else if k, isk := constInt(res); isk {
 					inClass = c.class == 2 && k == 0
 				}
 				if !inClass {
@@ -231,6 +240,108 @@ func guardedByS(fn *ssa.Function, at *ssa.BasicBlock, subj ssa.Value, mk Subject
 						all = false
 					}
 				} else if !guardedByS(h, b, h.Params[idx], mk, depth+1, fmk...) {
+					all = false
+				}
+			}
+			if all && n > 0 {
+				return true
+			}
+		}
+	}
+	return false
+}
+
+// CondMatcherX builds, for a scope described by a substitution (helper
+// parameters -> the values passed at the call under consideration), the
+// matcher of the comparisons that establish a condition.  With the empty
+// substitution it matches in the function itself.
+type CondMatcherX func(sub Subst) func(Cond) (bool, bool)
+
+// guardedByX: the block at is dominated by an edge on which the condition
+// holds, where the condition may be tested directly or by a predicate helper
+// (bool result, possibly one of several results, or a status compared with
+// OK) all of whose answers of the dominating class are themselves guarded,
+// inside the helper, by the condition on the corresponding parameters.
+func guardedByX(fn *ssa.Function, at *ssa.BasicBlock, mk CondMatcherX, sub Subst, depth int) bool {
+	if guardedBy(fn, at, mk(sub)) {
+		return true
+	}
+	if depth > 2 {
+		return false
+	}
+	for _, br := range branches(fn) {
+		var call *ssa.Call
+		idx := 0
+		type cls struct {
+			class int // 1 true, 0 false, 2 status OK
+			succ  *ssa.BasicBlock
+		}
+		var classes []cls
+		tupleOf := func(v ssa.Value) (*ssa.Call, int) {
+			v = stripConv(v)
+			if ex, ok := v.(*ssa.Extract); ok {
+				if c, ok := ex.Tuple.(*ssa.Call); ok {
+					return c, ex.Index
+				}
+				return nil, 0
+			}
+			c, _ := v.(*ssa.Call)
+			return c, 0
+		}
+		switch {
+		case br.Cond.Op == token.ILLEGAL:
+			call, idx = tupleOf(br.Cond.X)
+			classes = []cls{{1, br.True}, {0, br.False}}
+		case br.Cond.Op == token.EQL || br.Cond.Op == token.NEQ:
+			c, i := tupleOf(br.Cond.X)
+			k, isk := constInt(br.Cond.Y)
+			if c != nil && isk && k == 0 && isNamedStatus(stripConv(br.Cond.X).Type()) {
+				call, idx = c, i
+				if br.Cond.Op == token.EQL {
+					classes = []cls{{2, br.True}}
+				} else {
+					classes = []cls{{2, br.False}}
+				}
+			}
+		}
+		if call == nil {
+			continue
+		}
+		h := call.Call.StaticCallee()
+		if h == nil || !IsRepoFunc(h) || h.Blocks == nil || h == fn || !(isPrivateHelper(h) || h.Parent() != nil) {
+			continue
+		}
+		hs := Subst{}
+		for k, v := range sub {
+			hs[k] = v
+		}
+		for i, p := range h.Params {
+			if i < len(call.Call.Args) {
+				hs[p] = sub.resolve(call.Call.Args[i])
+			}
+		}
+		for _, c := range classes {
+			if !edgeDominates(br.Block, c.succ, at) {
+				continue
+			}
+			all, n := true, 0
+			for _, b := range h.Blocks {
+				r, ok := b.Instrs[len(b.Instrs)-1].(*ssa.Return)
+				if !ok || idx >= len(r.Results) {
+					continue
+				}
+				inClass := true
+				res := hs.resolve(r.Results[idx])
+				if bv, isb := constBool(res); isb {
+					inClass = (c.class == 1 && bv) || (c.class == 0 && !bv)
+				} else if k, isk := constInt(res); isk {
+					inClass = c.class == 2 && k == 0
+				}
+				if !inClass {
+					continue
+				}
+				n++
+				if !guardedByX(h, b, mk, hs, depth+1) {
 					all = false
 				}
 			}
